@@ -202,6 +202,67 @@ def check_flatten(g):
     return {"status": "ok", "n": len(texts)}
 
 
+def cascade_configs(ctx):
+    """Cascades with a *mixed* mapping: the target Einsum's loop order is omitted vs written as its default while the other
+    Einsums carry every explicit loop order (all permutations), a partitioning, or nothing."""
+    casc = [
+        ("cA", {"A": ["K", "M"], "B": ["K", "N"], "C": ["M", "N"], "T": ["M", "N"], "Z": ["M", "N"]},
+         [E("T", ["m", "n"], times(T("A", "k", "m"), T("B", "k", "n"))), E("Z", ["m", "n"], times(T("T", "m", "n"), T("C", "m", "n")))]),
+        ("cB", {"A": ["K", "M"], "B": ["K", "N"], "C": ["M", "N"], "T": ["M", "N"], "Z": ["N"]},
+         [E("T", ["m", "n"], times(T("A", "k", "m"), T("B", "k", "n"))), E("Z", ["n"], times(T("T", "m", "n"), T("C", "m", "n")))]),
+        ("cC", {"A": ["K", "M"], "B": ["K", "N"], "T": ["M"], "U": ["M", "N"], "Z": ["N", "M"]},
+         [E("T", ["m"], times(T("A", "k", "m"))), E("U", ["m", "n"], times(T("T", "m"), T("B", "k", "n"))),
+          E("Z", ["n", "m"], times(T("U", "m", "n")))]),
+    ]
+    work = []
+    for tag, decl, exprs in casc:
+        names = [e["out"][0] for e in exprs]
+        menus = []
+        for e in exprs:
+            dflt = default_loop_order(e, None)
+            menu = [{}] + [{"loop-order": list(p)} for p in itertools.permutations(dflt)]
+            r = dflt[0]
+            menu.append({"partitioning": {r: ["uniform_shape(2)"]}})
+            menu.append({"partitioning": {r: ["uniform_shape(2)"]}, "loop-order": default_loop_order(e, {r: ["uniform_shape(2)"]})})
+            menus.append(menu)
+        for ti, te in enumerate(exprs):
+            others = [menus[j] if j != ti else [None] for j in range(len(exprs))]
+            for ctxt in itertools.product(*others):
+                for tpart in (None, {default_loop_order(te, None)[-1]: ["uniform_shape(2)"]}):
+                    work.append({"tag": tag, "decl": decl, "exprs": exprs, "target": ti, "context": list(ctxt), "tpart": tpart})
+    return work
+
+
+def cascade_mapping(w, explicit):
+    m = {}
+    for j, e in enumerate(w["exprs"]):
+        o = e["out"][0]
+        if j == w["target"]:
+            if w["tpart"]:
+                m.setdefault("partitioning", {})[o] = copy.deepcopy(w["tpart"])
+            if explicit:
+                m.setdefault("loop-order", {})[o] = default_loop_order(e, w["tpart"])
+        else:
+            for k, v in (w["context"][j] or {}).items():
+                m.setdefault(k, {})[o] = copy.deepcopy(v)
+    return m
+
+
+def check_cascade(w):
+    w["exprs"] = [dict(e, out=tuple(e["out"])) for e in w["exprs"]]
+    texts = []
+    for explicit in (False, True):
+        try:
+            texts.append(str(B.compile_spec({"decl": w["decl"], "exprs": w["exprs"], "mapping": cascade_mapping(w, explicit)})))
+        except Exception as e:
+            texts.append("REJECTED %s: %s" % (type(e).__name__, e))
+    if texts[0] == texts[1]:
+        return {"status": "rejected" if texts[0].startswith("REJECTED") else "ok"}
+    return {"status": "fail", "why": "Einsum %d of the cascade with its loop order omitted vs written as the default %r (mapping of the other "
+            "Einsums: %r)\n--- omitted ---\n%s\n--- explicit ---\n%s" % (w["target"], default_loop_order(w["exprs"][w["target"]], w["tpart"]),
+                                                                        w["context"], texts[0], texts[1])}
+
+
 def run(ctx):
     work = configs(ctx)
     res = pmap(check, work, jobs=ctx.jobs, seed=ctx.seed, progress="C19")
@@ -213,6 +274,15 @@ def run(ctx):
         if r["status"] == "fail":
             viols.append({"sig": {"kind": "flatten-default", "einsum": B.render_expr(g["expr"]), "explicit": ["loop-order"], "partitioned": True},
                           "msg": "%s partitioning=%s\n%s" % (B.render_expr(g["expr"]), g["part"], r["why"]), "case": {"g": g}})
+    cwork = cascade_configs(ctx)
+    cres = pmap(check_cascade, cwork, jobs=ctx.jobs, seed=ctx.seed)
+    for w, r in zip(cwork, cres):
+        pairs += 1
+        if r["status"] == "rejected":
+            rejected["cascade context rejected in both forms"] = rejected.get("cascade context rejected in both forms", 0) + 1
+        elif r["status"] == "fail":
+            viols.append({"sig": {"kind": "cascade-default", "einsum": "%s/%d" % (w["tag"], w["target"]), "explicit": ["loop-order"], "partitioned": bool(w["tpart"])},
+                          "msg": r["why"], "case": {"c": w}})
     for w, r in zip(work, res):
         pairs += r["pairs"]
         if r["status"] == "rejected":
@@ -229,7 +299,7 @@ def run(ctx):
     uniq = {}
     for v in viols:
         uniq.setdefault((v["sig"]["einsum"], tuple(v["sig"]["explicit"]), v["sig"]["partitioned"]), v)
-    cov = {"evaluations": pairs, "distinct_nontrivial": ntext, "configurations": len(work), "flatten_groups": len(groups), "compile_rejections": rejected,
+    cov = {"evaluations": pairs, "distinct_nontrivial": ntext, "configurations": len(work), "flatten_groups": len(groups), "cascade_pairs": len(cwork), "compile_rejections": rejected,
            "rule": "templates (operand permutations, affine accesses, terms listing contracted ranks in different orders) x partitionings "
                    "without flatten x every subset of {rank-order, loop-order, partitioning} explicit vs omitted; evaluations = "
                    "(omitted, explicit) text pairs compared; distinct_nontrivial = accepted (Einsum, partitioning) configurations",
@@ -240,6 +310,13 @@ def run(ctx):
 
 
 def replay(ctx, case):
+    if "c" in case:
+        w = case["c"]
+        r = check_cascade(w)
+        if r["status"] == "fail":
+            return [{"sig": {"kind": "cascade-default", "einsum": "%s/%d" % (w["tag"], w["target"]), "explicit": ["loop-order"], "partitioned": bool(w["tpart"])},
+                     "msg": r["why"], "case": case}]
+        return []
     if "g" in case:
         g = case["g"]
         g["expr"]["out"] = tuple(g["expr"]["out"])
